@@ -81,7 +81,11 @@ def _run_round(desc):
                 # a mask is "everything > 0": 0/1, bool and other positive flag values select the same pixels
                 for flavour, mk in (("int8 0/1", mask.astype(np.int8)), ("bool", mask.copy()), ("int8 0/7", (mask * 7).astype(np.int8)),
                                     ("int8 0/127", (mask * 127).astype(np.int8)), ("int8 mixed", (mask * (1 + (np.arange(n).reshape(shp) % 5))).astype(np.int8))):
+                    mk_in = mk.copy()
                     spf = sf.from_data_mask(mk, data, {"threshold": 1})
+                    if not (np.array_equal(mk, mk_in) and np.array_equal(data, base.astype(dt))):
+                        sh.violation("from_data_mask[%s]:modifies-the-image-or-the-mask-it-is-given" % flavour, case, {})
+                        mk[...] = mk_in; data[...] = base.astype(dt)
                     ok = _check_frame(sh, "from_data_mask[%s]" % flavour, case, spf, mask, data, cI)
                     if not ok:
                         break
@@ -99,7 +103,11 @@ def _run_round(desc):
                     spf = sf.sparse_frame(row.ravel()[:nnz].copy(), col.ravel()[:nnz].copy(), shp)
                     spf.set_pixels("intensity", val.ravel()[:nnz].copy())
                 else:
+                    d2_in = d2.copy()
                     spf = sf.from_data_cut(d2, cut)
+                    if not np.array_equal(d2, d2_in):
+                        sh.violation("from_data_cut:modifies-the-image-it-is-given", dict(case, cut=cut), {})
+                        d2[...] = d2_in
                 _check_frame(sh, "from_data_cut[%s]" % cutname, dict(case, cut=cut), spf, want, d2, cI)
                 # a NaN pixel (dead pixel after flat-field division) is not above any cut
                 if dt == np.float32 and want.sum() >= 2 and x % 3 == 0:
